@@ -30,14 +30,51 @@ def run(tier, seed):
             aidx.append(i)
     for i, o in zip(aidx, common.run_harness(acmds)):
         files[i] = o["bytes"]
+    # hand-planned reference files beyond the enumerated plan space (framed by the harness from the codec libraries; header
+    # written here from the specification's layout): blocks with more objects than bytes (zero-byte datums; hundreds of
+    # zero longs that compress to a few bytes) and block sizes that DEcrease along the file, for every codec
+    sync = [(37 * k + 11) % 256 for k in range(16)]
+
+    def header(schema_json, codec_name):
+        ents = [(b"avro.schema", schema_json.encode())] + ([(b"avro.codec", codec_name.encode())] if codec_name else [])
+        out = [79, 98, 106, 1] + pyavro.enc_long(len(ents))
+        for k, v in ents:
+            out += pyavro.enc_long(len(k)) + list(k) + pyavro.enc_long(len(v)) + list(v)
+        return out + [0] + sync
+
+    LONG = lambda x: {"t": "long", "v": pyavro.limbs(x)}         # noqa: E731
+    STR = lambda t: {"t": "str", "v": list(t.encode())}           # noqa: E731
+    extra = []      # (what, schema json, values per block, raw bytes per block)
+    extra.append(("zero-byte datums (schema null), blocks of 3 and 1 objects with empty payloads", '"null"', [[{"t": "null"}] * 3, [{"t": "null"}]], [[], []]))
+    extra.append(("300 zero longs in one block, then 2", '"long"', [[LONG(0)] * 300, [LONG(1), LONG(-1)]], [[0] * 300, [2, 1]]))
+    big, small = "x" * 200 + "yz" * 40, "q"
+    extra.append(("a 283-byte block followed by a 2-byte block, then a 40-byte one", '"string"', [[STR(big)], [STR(small)], [STR("w" * 19), STR("v" * 19)]],
+                  [pyavro.enc_long(len(big)) + list(big.encode()), [2, ord("q")], ([38] + [ord("w")] * 19) + ([38] + [ord("v")] * 19)]))
+    n_plans = len(plans)
+    for what, sj, vals, raws in extra:
+        for ci, cn in enumerate(CODEC_NAMES):
+            h = header(sj, cn)
+            plans.append({"n": sum(len(b) for b in vals), "values": [v for b in vals for v in b], "user": [], "codecIdx": ci + 1, "blocks": [{"count": len(b)} for b in vals],
+                          "extra": what})
+            aidx2 = len(plans) - 1
+            o = common.run_harness([{"op": "assemble", "id": 0, "header": h, "sync": sync, "codec": cn, "blocks": [{"count": len(b), "raw": r} for b, r in zip(vals, raws)]}])[0]
+            if "bytes" not in o:
+                raise common.ToolError(f"could not assemble a reference file: {o}")
+            files.append(o["bytes"])
+            assert len(files) - 1 == aidx2
     readers = [{"kind": "slice"}, {"kind": "chunks", "sched": [1]}, {"kind": "chunks", "sched": []}, {"kind": "bufreader", "cap": 3}]
     rcmds = [{"op": "reader", "id": i, "bytes": files[i], "reader": readers[i % 4], "calls": p["n"] + 2} for i, p in enumerate(plans)]
+    for i in range(n_plans, len(plans)):       # the hand-planned files go through every reader kind
+        for rd in readers[1:]:
+            plans.append(plans[i])
+            files.append(files[i])
+            rcmds.append({"op": "reader", "id": len(rcmds), "bytes": files[i], "reader": rd, "calls": plans[i]["n"] + 2})
     robs = common.run_harness(rcmds, per_cmd_timeout=30)
     events, owner = [], []
     for i, (p, c, o) in enumerate(zip(plans, rcmds, robs)):
-        what = (f"reference file: {p['n']} values in blocks {[b['count'] for b in p['blocks']]}, codec "
+        what = (f"reference file{' (' + p['extra'] + ')' if p.get('extra') else ''}: {p['n']} values in blocks {[b['count'] for b in p['blocks']]}, codec "
                 f"{'(no avro.codec entry)' if p['codecIdx'] == 0 else CODEC_NAMES[p['codecIdx'] - 1]}, {len(p['user'])} user keys, reader {c['reader']}")
-        scen = {"fam": "reference_file", "cmd": c, "plan": {k: p[k] for k in ("n", "values", "user", "codecIdx")}, "codec_entry": "absent" if p["codecIdx"] == 0 else "present"}
+        scen = {"fam": "reference_file", "cmd": c, "plan": {k: (p[k] if k != "values" else p[k][:12]) for k in ("n", "values", "user", "codecIdx")}, "codec_entry": "absent" if p["codecIdx"] == 0 else "present"}
         if o.get("res") != "ok" or o.get("init") != "ok":
             rep.violation(f"{what}: the reader could not open a conforming file: {o.get('msg', o.get('res'))}", scen, expected="values " + json.dumps(p["values"])[:200], observed=o)
             continue
@@ -58,7 +95,19 @@ def run(tier, seed):
                 ops = [json.loads(json.dumps(alpha[ch])) for ch in sq] + [{"op": "into_inner"}]
                 meta = [[container.T(k), [rng.randrange(256) for _ in range(rng.randrange(0, 5))]] for k in rng.sample(["a", "user.meta", "zz", "avro.x"], rng.randrange(0, 4))]
                 wcmds.append(container.writer_cmd(G, cd, approx, ops, meta=meta, cid=len(wcmds), level=rng.choice([None, 1, 9])))
-    wevents, wobs, _, ntw = C15.validate(rep, G, wcmds, "layout of a written file")
+    # zero-byte datums (schema null, a record without fields): blocks with a count and an empty payload, every codec
+    Gnull = [{"k": "null", "lt": "none"}]
+    Gempty = [{"k": "record", "lt": "none", "name": container.T("Empty"), "fields": []}]
+    for si, (zg, zp) in enumerate(((Gnull, {"p": "unit"}), (Gempty, {"p": "struct", "name": container.T("Empty"), "fs": []})), start=2):
+        for cd in container.CODECS:
+            for approx in (0, 5):
+                for n_items, with_push, with_finish in ((1, False, False), (3, False, True), (2, True, False)):
+                    ops = [{"op": "serialize", "pres": zp} for _ in range(n_items)] + ([{"op": "finish"}] if with_finish else []) \
+                        + ([{"op": "push", "bytes": [], "n": 2}] if with_push else []) + [{"op": "serialize", "pres": zp}, {"op": "into_inner"}]
+                    c = container.writer_cmd(zg, cd, approx, ops, cid=len(wcmds))
+                    c["_si"] = si
+                    wcmds.append(c)
+    wevents, wobs, _, ntw = C15.validate(rep, [G, Gnull, Gempty], wcmds, "layout of a written file")
     cov = {
         "states": r["states"], "transitions": r["states"], "traces_validated_against_impl": ntr + ntw,
         "evaluations": len(plans) + len(wcmds), "distinct_nontrivial": len(plans) + len(wcmds),
